@@ -158,3 +158,11 @@ Example unjoin_rv_vars_nonvacuous :
   flat_map rv_vars ds = [(sETA, [sOM]); (sETA2, [sOM2]); (sE1, [sT2])] /\
   flat_map rv_vars (unjoin [sETA2] ds) = [(sETA2, [sOM2]); (sETA, [sOM]); (sE1, [sT2])].
 Proof. repeat split; vm_compute; reflexivity. Qed.
+
+(* a 3x3 block of which only the middle eta is used: the outer two are unjoined and removed, the used one stays *)
+Example unused_keeps_used_nonvacuous :
+  let ds := [DJoint [sETA2; sETA; sE1] [[[sOM2]; [sN1]; [sN2]]; [[sN1]; [sOM]; [sT2]]; [[sN2]; [sT2]; [sCOV]]]] in
+  In sETA (flat_map rdist_names ds) /\ In sETA (all_ssyms pheno_prog) /\
+  unused_new_rv_names (all_ssyms pheno_prog) ds = [sETA; sE1] /\
+  to_unjoin (all_ssyms pheno_prog) ds = [sETA2].
+Proof. repeat split; vm_compute; tauto. Qed.
